@@ -397,7 +397,7 @@ static void byz_relay_script(Cfg &c, int sender, unsigned long true_val, int cod
 	int b = c.byz;
 	std::vector<int> hon;
 	for (int i = 0; i < c.n; i++) if (c.honest[i]) hon.push_back(i);
-	std::string id = chan_id(c), slot = num(1);
+	std::string id = chan_id(c), slot = first_slot(c, sender);
 	unsigned long fake = 7777;
 	int x = code;
 	int e[3], r[3];
